@@ -61,6 +61,8 @@ static void build(void)
 	for (int c = 0; c < 4; c++) add(S_READ, "bounded stream read with low water 1", 3, C3[c], 2, INF, 1);
 	for (int c = 0; c < 8; c++) add(S_READ, "bounded stream read with low water 1", 4, C4[c], 3, INF, 1);
 	for (int c = 0; c < 8; c += 3) add(S_READ2, "two reads of 2 bytes back to back, low water 1", 4, C4[c], 2, INF, 1);
+	// stop while bytes are buffered below the (default) low-water mark: they must still reach the handler
+	for (int c = 0; c < 4; c++) add(S_STOP_INFLIGHT, "read SIZE_MAX in flight, then dispatch_io_close(DISPATCH_IO_STOP)", 3, C3[c], INF, INF, INF);
 }
 
 // ---- per-operation records -----------------------------------------------------------------
@@ -260,8 +262,8 @@ static int check(int v, const vx_log *l, char *msg, size_t len)
 		if (nc != ncons || memcmp(cat, cons, nc))
 			FAILF(msg, len, "the handlers were given %zu bytes but the library consumed %zu bytes from the descriptor (or in a different order)", nc, ncons);
 	} else {
-		// a stopped operation may drop bytes it had already consumed, but must not invent or reorder any
 		if (nc > ncons || memcmp(cat, cons, nc)) FAILF(msg, len, "after DISPATCH_IO_STOP the delivered bytes are not a prefix of the consumed bytes");
+		if (nc != ncons) FAILF(msg, len, "after DISPATCH_IO_STOP the handlers were given %zu bytes but the library had consumed %zu bytes from the descriptor", nc, ncons);
 	}
 	for (int i = 0; i < nops; i++) {
 		size_t req = (s->kind == S_READ || s->kind == S_FILE_STREAM || s->kind == S_INTERVAL) ? s->len : (s->kind == S_READ_AFTER_CLOSE ? 3 : (i == 0 && (s->kind == S_CLOSE_INFLIGHT || s->kind == S_STOP_INFLIGHT)) ? INF : (s->kind == S_CLOSE_INFLIGHT || s->kind == S_STOP_INFLIGHT) ? 1 : 2);
